@@ -56,6 +56,13 @@ def load_known():
         return json.load(f)["findings"]
 
 
+def _signature(ob):
+    """how an obligation fails: for bounded cases the observed wrong behaviour on the witness"""
+    if ob.kind == "bounded" and ob.fail:
+        return str(ob.fail.get("detail"))
+    return "refuted"
+
+
 def func_hashes(functions):
     idx = runner.get_index()
     out = {}
@@ -164,7 +171,15 @@ def run_check(pid, tier, seed, replay_path=None):
                 continue
             k = next((k for k in known if k.get("status") == "known" and any(
                 fnmatch.fnmatchcase(ob.oid, pat) for pat in k["obligations"])), None)
-            if k is not None:
+            sig = _signature(ob)
+            if k is not None and k.get("signatures") and ob.oid in k["signatures"] and k["signatures"][ob.oid] != sig:
+                # the recorded witness now fails in a DIFFERENT way: not the listed finding any more
+                ob.note = "behaviour on the recorded witness changed: was %r, now %r" % (k["signatures"][ob.oid][:200], sig[:200])
+                violations.append(ob)
+            elif k is not None and k.get("signatures") and ob.kind == "bounded" and ob.oid not in k["signatures"]:
+                ob.note = "fails like a listed finding but on a case that finding does not list"
+                violations.append(ob)
+            elif k is not None:
                 hits.setdefault(k["id"], []).append(ob)
             else:
                 violations.append(ob)
@@ -176,6 +191,18 @@ def run_check(pid, tier, seed, replay_path=None):
             errors.append("canary %s was not refuted: the checker would accept anything here" % c)
     if cross["mismatches"]:
         errors.append("CPython cross-check mismatch: %s" % json.dumps(cross["mismatches"][:2], default=str)[:600])
+
+    if os.environ.get("PYVC_RECORD_SIGNATURES") == pid:
+        # maintenance only (never used by a registered command): pin how each listed finding fails today
+        path = os.path.join(VERIF, "known_findings.json")
+        with open(path) as f:
+            doc = json.load(f)
+        for k in doc["findings"]:
+            if k["property"] == pid and k.get("status") == "known" and k["id"] in hits:
+                k["signatures"] = {ob.oid: _signature(ob) for ob in hits[k["id"]] if ob.kind == "bounded"}
+        with open(path, "w") as f:
+            json.dump(doc, f, indent=1)
+        print("signatures recorded for %s" % pid)
 
     # ---- output
     for k in known:
@@ -195,6 +222,7 @@ def run_check(pid, tier, seed, replay_path=None):
             if ob.kind != "bounded" else "bounded check failed",
             "counterexample": ob.fail.get("model") if ob.fail else None,
             "detail": ob.fail.get("detail") if ob.fail else None,
+            "note": ob.note,
             "path_trace": ob.fail.get("trace") if ob.fail else None,
             "notes": ob.fail.get("notes") if ob.fail else None,
             "native_replay": ob.native,
